@@ -1,3 +1,317 @@
 package main
 
-func cmdCheck(args []string) {}
+// `gosmt check <ID> --tier quick|thorough`: run the harness set of one property,
+// write /verif/evidence/<ID>.json, print VIOLATION / KNOWN-FINDING / INCONCLUSIVE lines.
+
+import (
+	"bufio"
+	"encoding/json"
+	"flag"
+	"fmt"
+	"os"
+	"path/filepath"
+	"runtime"
+	"sort"
+	"strconv"
+	"strings"
+	"time"
+)
+
+type PropertySpec struct {
+	Level       string         `json:"level"`
+	Explanation string         `json:"explanation"`
+	Assumptions []string       `json:"assumptions"`
+	Outside     []string       `json:"outside"`
+	Harnesses   []*HarnessSpec `json:"harnesses"`
+}
+
+type knownFinding struct {
+	property, harness, label, match, text string
+}
+
+func loadKnown(path string) ([]knownFinding, error) {
+	f, err := os.Open(path)
+	if err != nil {
+		if os.IsNotExist(err) {
+			return nil, nil
+		}
+		return nil, err
+	}
+	defer f.Close()
+	var out []knownFinding
+	sc := bufio.NewScanner(f)
+	for sc.Scan() {
+		line := strings.TrimSpace(sc.Text())
+		if !strings.HasPrefix(line, "known:") {
+			continue
+		}
+		head, text, _ := strings.Cut(strings.TrimPrefix(line, "known:"), "::")
+		k := knownFinding{text: strings.TrimSpace(text)}
+		// fields: property= harness= label= match="..."
+		rest := strings.TrimSpace(head)
+		for rest != "" {
+			rest = strings.TrimSpace(rest)
+			i := strings.IndexByte(rest, '=')
+			if i < 0 {
+				break
+			}
+			key := rest[:i]
+			rest = rest[i+1:]
+			var val string
+			if strings.HasPrefix(rest, "\"") {
+				j := strings.Index(rest[1:], "\"")
+				if j < 0 {
+					break
+				}
+				val = rest[1 : 1+j]
+				rest = rest[j+2:]
+			} else {
+				j := strings.IndexByte(rest, ' ')
+				if j < 0 {
+					val, rest = rest, ""
+				} else {
+					val, rest = rest[:j], rest[j+1:]
+				}
+			}
+			switch key {
+			case "property":
+				k.property = val
+			case "harness":
+				k.harness = val
+			case "label":
+				k.label = val
+			case "match":
+				k.match = val
+			}
+		}
+		out = append(out, k)
+	}
+	return out, sc.Err()
+}
+
+func (k *knownFinding) matches(prop string, v *Violation) bool {
+	if k.property != prop {
+		return false
+	}
+	if k.harness != "" && k.harness != v.Harness {
+		return false
+	}
+	if k.label != "" && k.label != v.Label {
+		return false
+	}
+	if k.match != "" && !strings.Contains(v.Msg+" @"+v.Pos+" "+strings.Join(v.Trace, ","), k.match) {
+		return false
+	}
+	return true
+}
+
+func cmdCheck(args []string) {
+	fs := flag.NewFlagSet("check", flag.ExitOnError)
+	tier := fs.String("tier", "", "quick|thorough")
+	repo := fs.String("repo", "/repo", "repository")
+	vdir := fs.String("verif", "/verif", "verif directory")
+	workers := fs.Int("j", runtime.NumCPU(), "workers")
+	only := fs.String("only", "", "run only harnesses whose name contains this")
+	verbose := fs.Bool("v", false, "verbose")
+	var pid string
+	if len(args) > 0 && !strings.HasPrefix(args[0], "-") {
+		pid = args[0]
+		args = args[1:]
+	}
+	fs.Parse(args)
+	if pid == "" && fs.NArg() > 0 {
+		pid = fs.Arg(0)
+	}
+	if *tier == "" {
+		*tier = os.Getenv("VERIF_TIER")
+	}
+	if *tier != "thorough" {
+		*tier = "quick"
+	}
+	seed, _ := strconv.Atoi(os.Getenv("VERIF_SEED"))
+	t0 := time.Now()
+	fail := func(code int, f string, a ...interface{}) {
+		fmt.Printf(f+"\n", a...)
+		os.Exit(code)
+	}
+	regb, err := os.ReadFile(filepath.Join(*vdir, "harness", "registry.json"))
+	if err != nil {
+		fail(2, "INCONCLUSIVE property=%s registry: %v", pid, err)
+	}
+	reg := map[string]*PropertySpec{}
+	if err := json.Unmarshal(regb, &reg); err != nil {
+		fail(2, "INCONCLUSIVE property=%s registry: %v", pid, err)
+	}
+	ps, ok := reg[pid]
+	if !ok {
+		fail(2, "INCONCLUSIVE property=%s not in registry", pid)
+	}
+	known, err := loadKnown(filepath.Join(*vdir, "known_findings.txt"))
+	if err != nil {
+		fail(2, "INCONCLUSIVE property=%s known findings: %v", pid, err)
+	}
+	P, err := LoadProgram(*repo, filepath.Join(*vdir, "harness"), loadPatterns)
+	if err != nil {
+		fail(2, "INCONCLUSIVE property=%s cannot load /repo with harness overlays: %v", pid, err)
+	}
+	loadS := time.Since(t0).Seconds()
+
+	var results []*HarnessResult
+	for _, hs := range ps.Harnesses {
+		if hs.Tier == "thorough" && *tier != "thorough" {
+			continue
+		}
+		if *only != "" && !strings.Contains(hs.Name, *only) {
+			continue
+		}
+		h := NewHarnessRun(P, hs, *tier)
+		err := h.Run(*workers)
+		r := h.Result(err)
+		results = append(results, r)
+		if *verbose {
+			fmt.Fprintf(os.Stderr, "%-40s paths=%d obligations=%d/%d viol=%d unknown=%d unsupported=%d %.1fs\n", r.Name, r.Paths, r.Discharged, r.Obligations, len(r.Violations), len(r.Unknowns), len(r.Unsupported), r.WallS)
+		}
+	}
+
+	// aggregate
+	outDir := filepath.Join(*vdir, "out", "replays")
+	os.MkdirAll(outDir, 0o755)
+	exit := 0
+	var lines []string
+	nViol, nKnown := 0, 0
+	paths, obl, dis, commits, cuts := 0, 0, 0, 0, 0
+	funcs, sqls, stubs, bounds := map[string]bool{}, map[string]bool{}, map[string]bool{}, map[string]bool{}
+	var samples []interface{}
+	var reached []string
+	inconclusive := []string{}
+	perHarness := []map[string]interface{}{}
+	knownPrinted := map[string]bool{}
+	for _, r := range results {
+		paths += r.Paths
+		obl += r.Obligations
+		dis += r.Discharged
+		commits += r.Commits
+		cuts += r.Cuts
+		for _, f := range r.Funcs {
+			funcs[f] = true
+		}
+		for _, f := range r.SQL {
+			sqls[f] = true
+		}
+		for _, f := range r.Stubs {
+			stubs[f] = true
+		}
+		for _, f := range r.Bounds {
+			bounds[f] = true
+		}
+		for l := range r.Reach {
+			reached = append(reached, r.Name+":"+l)
+		}
+		for _, s := range r.Samples {
+			if len(samples) < 12 {
+				samples = append(samples, s)
+			}
+		}
+		perHarness = append(perHarness, map[string]interface{}{"harness": r.Name, "paths": r.Paths, "obligations": r.Obligations, "discharged": r.Discharged, "violations": len(r.Violations), "wall_s": r.WallS})
+		if r.Err != "" {
+			inconclusive = append(inconclusive, r.Name+": "+r.Err)
+		}
+		for _, u := range r.Unknowns {
+			inconclusive = append(inconclusive, r.Name+": solver unknown: "+u)
+		}
+		for _, u := range r.Unsupported {
+			inconclusive = append(inconclusive, r.Name+": "+u)
+		}
+		for _, m := range r.MissingReach {
+			inconclusive = append(inconclusive, r.Name+": vacuous: witness '"+m+"' not reached")
+		}
+		for i, v := range r.Violations {
+			matched := false
+			for _, k := range known {
+				if k.matches(pid, v) {
+					matched = true
+					key := k.harness + "|" + k.label + "|" + k.match
+					if !knownPrinted[key] {
+						knownPrinted[key] = true
+						lines = append(lines, fmt.Sprintf("KNOWN-FINDING: property=%s %s", pid, k.text))
+					}
+					break
+				}
+			}
+			if matched {
+				nKnown++
+				continue
+			}
+			nViol++
+			rp := filepath.Join(outDir, fmt.Sprintf("%s_%s_%d.json", pid, r.Name, i))
+			rb, _ := json.MarshalIndent(map[string]interface{}{"property": pid, "tier": *tier, "violation": v}, "", " ")
+			os.WriteFile(rp, rb, 0o644)
+			lines = append(lines, fmt.Sprintf("VIOLATION property=%s replay=%s   # %s/%s: %s @%s", pid, rp, v.Harness, v.Label, v.Msg, v.Pos))
+			exit = 1
+		}
+	}
+	sort.Strings(reached)
+	if exit == 0 && len(inconclusive) > 0 {
+		exit = 2
+	}
+	if len(results) == 0 {
+		inconclusive = append(inconclusive, "no harness ran")
+		exit = 2
+	}
+
+	// evidence
+	cov := map[string]interface{}{
+		"states":                        paths,
+		"transitions":                   commits,
+		"traces_validated_against_impl": 0,
+		"evaluations":                   int(gStats.Queries),
+		"distinct_nontrivial":           obl,
+		"rule":                          "one evaluation = one SMT query (feasibility, assertion, invariant, witness); states = symbolic paths explored (each keeps all data symbolic); transitions = store transactions committed on those paths; distinct_nontrivial = assertion/invariant obligations (PC => cond) posed on feasible paths",
+		"obligations":                   obl,
+		"discharged":                    dis,
+		"unknown":                       len(inconclusive),
+		"subsumption_cuts":              cuts,
+		"witnesses_reached":             reached,
+		"functions_encoded":             setKeys(funcs),
+		"sql_statements":                setKeys(sqls),
+		"stubs":                         setKeys(stubs),
+		"bound_assumptions_hit":         setKeys(bounds),
+		"harnesses":                     perHarness,
+		"samples":                       samples,
+		"solver":                        map[string]interface{}{"primary": primarySolver, "fallback": []string{"z3", "z3-new"}, "queries": gStats.Queries, "sat": gStats.Sat, "unsat": gStats.Unsat, "unknown": gStats.Unknown, "time_s": float64(gStats.TimeNanos) / 1e9},
+		"load_s":                        loadS,
+		"explanation":                   ps.Explanation,
+		"exhaustive":                    false,
+		"known_findings_matched":        nKnown,
+		"inconclusive":                  inconclusive,
+		"outside_the_claim":             ps.Outside,
+	}
+	if ps.Level == "translation_validation" {
+		cov["programs"] = len(results)
+		cov["disagreements_checked"] = obl
+	}
+	if len(samples) == 0 {
+		cov["samples"] = []interface{}{map[string]interface{}{"note": "no completed path"}}
+	}
+	ev := map[string]interface{}{
+		"property_id": pid, "tier": *tier, "seed": seed, "level": ps.Level, "coverage": cov,
+		"assumptions": ps.Assumptions, "wall_s": time.Since(t0).Seconds(), "violations": nViol,
+	}
+	eb, _ := json.MarshalIndent(ev, "", " ")
+	os.MkdirAll(filepath.Join(*vdir, "evidence"), 0o755)
+	if err := os.WriteFile(filepath.Join(*vdir, "evidence", pid+".json"), eb, 0o644); err != nil {
+		fmt.Println("INCONCLUSIVE cannot write evidence:", err)
+		exit = 2
+	}
+	for _, l := range lines {
+		fmt.Println(l)
+	}
+	if exit == 2 {
+		for _, m := range inconclusive {
+			fmt.Printf("INCONCLUSIVE property=%s %s\n", pid, m)
+		}
+	}
+	fmt.Printf("property=%s tier=%s harnesses=%d paths=%d obligations=%d discharged=%d violations=%d known=%d queries=%d solver_s=%.1f wall_s=%.1f exit=%d\n",
+		pid, *tier, len(results), paths, obl, dis, nViol, nKnown, gStats.Queries, float64(gStats.TimeNanos)/1e9, time.Since(t0).Seconds(), exit)
+	os.Exit(exit)
+}
